@@ -191,6 +191,8 @@ const MESSAGES: &[&str] = &[
     "ünï: cödé",
     "x)(",
     "java.lang.Foo: nested: deep",
+    // format characters that are NOT white space: nothing may strip them
+    "ends with zwsp\u{200b}", "\u{200b}starts with zwsp", "bom\u{feff}", "\u{2060}wj", "x\u{200d}",
 ];
 
 impl<'a> TraceGen<'a> {
@@ -414,7 +416,9 @@ pub fn gen_type(rng: &mut Rng, u: &Universe, depth: usize) -> String {
             let name = if !u.classes.is_empty() && rng.pct(60) {
                 rng.pick(&u.classes).replace('.', "/")
             } else {
-                rng.pick(&["I", "Lib", "x/Long", "java/lang/String", "é/É", "V", "a/b$c", "L"]).to_string()
+                // (JVMS 4.2.2 forbids only . ; [ / inside a segment: `<`, `>`, `(`, `)` are legal)
+                rng.pick(&["I", "Lib", "x/Long", "java/lang/String", "é/É", "V", "a/b$c", "L", "x<y", "a<b>", "<init>", "a)b", "x/y)z", "a(b", "p>q", "kotlin/jvm/internal/k",
+                           "kotlinx/coroutines/a0", "a b", "-", "a-b"]).to_string()
             };
             format!("L{};", name)
         }
@@ -2375,6 +2379,7 @@ pub fn gen_c20(rng: &mut Rng, tier: &str, out: &mut Out) {
         frp_queries(out, true, &u);
         let tg = TraceGen { u: &u };
         out.d(format!("TXT {}", hxs(&tg.text(rng))));
+        sig_queries(out, rng, true, &u, 4);
     }
     many_class_sig_ops(out, if th { 2100 } else { 1100 });
 }
